@@ -1,6 +1,7 @@
 package oned
 
 import (
+	"math"
 	"strconv"
 
 	"github.com/makiuchi-d/gozxing"
@@ -92,6 +93,11 @@ func (this *OneDimensionalCodeWriter) Encode(
 func onedWriter_renderResult(code []bool, width, height, sidesMargin int) (*gozxing.BitMatrix, error) {
 	inputWidth := len(code)
 	if sidesMargin < 0 || inputWidth == 0 {
+		return nil, gozxing.NewWriterException(
+			"IllegalArgumentException: invalid margin %d for %d modules", sidesMargin, inputWidth)
+	}
+	// a margin so large that symbol + margin wraps round would give a blank image without an error
+	if sidesMargin > math.MaxInt-inputWidth {
 		return nil, gozxing.NewWriterException(
 			"IllegalArgumentException: invalid margin %d for %d modules", sidesMargin, inputWidth)
 	}
